@@ -51,6 +51,7 @@ type Resp struct {
 	Boundaries int64  `json:"boundaries,omitempty"`
 	FsmIndex   uint64 `json:"fsmIndex,omitempty"`
 	FsmVersion uint64 `json:"fsmVersion,omitempty"`
+	RaftLast   uint64 `json:"raftLastIndex,omitempty"` // raft's last log index (log or snapshot)
 }
 
 // ---------------------------------------------------------------- child
@@ -196,7 +197,8 @@ func ChildMain() bool {
 			for _, tb := range []storage.Table{storage.HyperTable, storage.HyperCacheTable, storage.HistoryTable} {
 				t += hx.HashDump(hx.DumpTable(rs, tb)) + "/"
 			}
-			reply(Resp{Status: 1, Version: node.VerifBalloon().Version(), Tables: t, FsmIndex: idx, FsmVersion: ver, Boundaries: atomic.LoadInt64(&boundaries)})
+			last, _ := strconv.ParseUint(node.VerifRaftStats()["last_log_index"], 10, 64)
+			reply(Resp{Status: 1, Version: node.VerifBalloon().Version(), Tables: t, FsmIndex: idx, FsmVersion: ver, RaftLast: last, Boundaries: atomic.LoadInt64(&boundaries)})
 		case "barrier":
 			err := node.VerifBarrier(20 * time.Second)
 			r := Resp{Status: 1, Boundaries: atomic.LoadInt64(&boundaries)}
